@@ -125,7 +125,10 @@ TraceDrain ==
          cut(c) == nxt[c].closed /\ ~Whole(nxt[c].wire, ws)
      IN IF skip \/ failed THEN Pass
         ELSE IF Judge(e, nxt) # "ok" THEN Reject(Judge(e, nxt))
-        ELSE IF \E c \in All : e.ids[c] # IdsOf(nxt[c].wire) \/ (~cut(c) /\ (e.bad[c] # <<>> \/ e.left[c] # 0))
+        ELSE IF \E c \in All : \/ ~cut(c) /\ (e.ids[c] # IdsOf(nxt[c].wire) \/ e.bad[c] # <<>> \/ e.left[c] # 0)
+                                  \* cut inside a unit: the readers may or may not report the unit under way
+                                  \/ cut(c) /\ e.ids[c] # IdsOf(nxt[c].wire)
+                                            /\ e.ids[c] # Append(IdsOf(nxt[c].wire), nxt[c].wire[Len(nxt[c].wire)].id)
                THEN Reject("StreamProjection")
         ELSE Step(nxt)
 
